@@ -66,6 +66,10 @@ def build(B, cfg):
     n_dim = total_dim(units)
     n_mech = n_dim - 1
     mm, lls, obs = make_likelihoods(B, n_ids, n_mech)
+    if cfg.get('id_labels'):
+        # user-chosen individual labels, in data order (not sorted)
+        for ll_, lab in zip(lls, cfg['id_labels']):
+            ll_.set_id(lab)
     pop = make_population(units, n_ids, cfg.get('bare', False))
     ll_names = lls[0].get_parameter_names()
     pop.set_dim_names(ll_names)
